@@ -22,7 +22,10 @@ def project():
                           "  subroutine two_inits()\n    type(alpha) :: ya\n    type(beta) :: yb\n    call ya%init()\n    call yb%init()\n  end subroutine two_inits\nend module types\n")
     # a parent type with a derived-type component, extended twice: composition belongs to the type that declares the component
     f["src/holders.f90"] = ("module holders\n  use types\n  implicit none\n  type :: holder\n    type(t0) :: kept\n  end type holder\n  type, extends(holder) :: h1\n  end type h1\n"
-                            "  type, extends(h1) :: h2\n    integer :: own\n  end type h2\nend module holders\n")
+                            "  type, extends(h1) :: h2\n    integer :: own\n  end type h2\n  type :: poly_holder\n    class(t0), allocatable :: anything\n  end type poly_holder\nend module holders\n")
+    # a parameterised derived type: a call through an object declared with type parameters goes to the type's binding
+    f["src/pdt.f90"] = ("module pdt\n  implicit none\n  type :: matrix(k, n)\n    integer, kind :: k = 4\n    integer, len :: n\n  contains\n    procedure :: scale => matrix_scale\n  end type matrix\ncontains\n"
+                        "  subroutine matrix_scale(self)\n    class(matrix(4,*)) :: self\n  end subroutine matrix_scale\n  subroutine pdt_driver()\n    type(matrix(4,10)) :: m\n    call m%scale()\n  end subroutine pdt_driver\nend module pdt\n")
     # a USE two procedure levels down is still a dependency of the file
     # a call through a name that an inner ASSOCIATE re-defines goes to the inner selector's binding
     f["src/assoc.f90"] = ("module assoc_shapes\n  implicit none\n  type :: circle_t\n  contains\n    procedure :: draw => draw_circle\n  end type circle_t\n  type :: square_t\n  contains\n    procedure :: draw => draw_square\n"
@@ -41,7 +44,7 @@ def project():
 
 
 # the relations the project-wide graphs are documented to show, for project(): (from, to, style)
-TYPE_EDGES = {("t1", "t0", "solid"), ("t2", "t1", "solid"), ("t2", "t0", "dashed"), ("h1", "holder", "solid"), ("h2", "h1", "solid"), ("holder", "t0", "dashed")}
+TYPE_EDGES = {("t1", "t0", "solid"), ("t2", "t1", "solid"), ("t2", "t0", "dashed"), ("h1", "holder", "solid"), ("h2", "h1", "solid"), ("holder", "t0", "dashed"), ("poly_holder", "t0", "dashed")}
 FILE_EDGES = {("holders.f90", "types.f90"), ("deep.f90", "uses.f90"), ("deep.f90", "deep.f90"), ("util.f90~2", "util.f90")}
 USE_EDGES = {("left", "base"), ("right", "base"), ("top", "left"), ("top", "right"), ("holders", "types"), ("io_util", "grid_util"), ("sep_impl", "sep")}
 # (a USE statement inside a contained procedure is an edge of the *file* graph - compilation order - not of the module graph, which shows the USE statements of the
@@ -71,6 +74,11 @@ def exact_relations(gm):
             got = {b for a, b in edges_of(e.callsgraph) if a == "two_inits"}
             if got != {"init_a", "init_b"}:
                 bad.append(f"calls graph of two_inits: edges to {sorted(got)}, expected to init_a (alpha%init) and init_b (beta%init)")
+    for e in gm.graph_objs:
+        if e.name == "pdt_driver" and hasattr(e, "callsgraph"):
+            got = {b for a, b in edges_of(e.callsgraph) if a == "pdt_driver"}
+            if got != {"matrix_scale"}:
+                bad.append(f"calls graph of pdt_driver: edges to {sorted(got)}, expected to matrix_scale (the binding `scale` of the parameterised type of `m`)")
     for e in gm.graph_objs:
         if e.name == "render" and hasattr(e, "callsgraph"):
             got = {b for a, b in edges_of(e.callsgraph)}
